@@ -48,7 +48,8 @@ CONSTANTS K,          \* user keys 1..K   (0 = -infinity entry of the start node
           NilForGone, \* BOOLEAN: fetching the id of a removed node whose frame was evicted fails (FALSE: the fetch reads
                       \*          whatever the file holds under that id - an older image of the node, or zeros)
           Validate,   \* BOOLEAN: FALSE = counters are not compared (defect switch)
-          BumpOnRemove \* BOOLEAN: FALSE = a removed node keeps its counter (defect switch)
+          BumpOnRemove, \* BOOLEAN: FALSE = a removed node keeps its counter (defect switch)
+          BumpOnEntry   \* BOOLEAN: FALSE = removing an entry from a node that keeps others leaves the counter (defect switch)
 
 Keys   == 1..K
 InfMin == 0
@@ -245,7 +246,7 @@ NRem(t) ==
                /\ StartValidation(t, chk, <<n, node[n].ctr>>, lvl, th[t].corners)
                /\ UNCHANGED <<node, abs, err>>
      ELSE IF k \in node[n].keys
-       THEN /\ node' = [node EXCEPT ![n].keys = @ \ {k}, ![n].ctr = @ + 1,
+       THEN /\ node' = [node EXCEPT ![n].keys = @ \ {k}, ![n].ctr = IF BumpOnEntry THEN @ + 1 ELSE @,
                                     ![n].val = [x \in node[n].keys \ {k} |-> IF x \in DOMAIN node[n].val THEN node[n].val[x] ELSE None]]
             /\ latch' = Rel(latch, n, t, "w")
             /\ abs' = [abs EXCEPT ![k] = None]
@@ -322,6 +323,7 @@ SSplit(t) ==
                              ![n].keys = IF toNew THEN low ELSE low \cup {k},
                              ![n].val = [x \in (IF toNew THEN low ELSE low \cup {k}) |-> vOf(x)]]
      IN IF \E i \in 1..lvl : ~Holds(latch, th[t].corners[i][1], t, "w") THEN Fail("split: a corner is not latched")
+        ELSE IF Cardinality(all) < CapOf(n) THEN Fail("split: the node is no longer full - the decision to split is stale")
         ELSE
         /\ FreeIds # {}
         /\ node' = Relink(n0, 1, lvl, th[t].corners, new)
